@@ -399,6 +399,22 @@ def gen_history(r, version, opts=None):
         # names used by the generic builder for edges etc. may collide with our pools: fine,
         # they are simply defined names now
         ops.append(["load", doc["lines"]])
+    if o.get("circular_first") and gen.fair(r, o["circular_first"]):
+        # a circular line on a segment that is not defined yet (both references of the line wait
+        # for the same placeholder)
+        free = [n for n in POOL["S"] if n not in st.names() and n not in st.undefined()]
+        if free:
+            u = gen.choice(r, free)
+            if version == "gfa1":
+                line = ["L", [u, gen.choice(r, "+-"), u, gen.choice(r, "+-"), gen.choice(r, ["*", "4M", "2M1D1M"])], []]
+                st.ov_policy[M.ends_key(*line[1][:4])] = "*" if line[1][4] == "*" else "spec"
+            else:
+                n_ = seg_len(st, u)
+                b1, e1, _k = gen.interval(r, n_)
+                b2, e2, _k = gen.interval(r, n_)
+                line = ["E", ["*", u + gen.choice(r, "+-"), u + gen.choice(r, "+-"), b1, e1, b2, e2, "*"], []]
+            model_add(st, line)
+            ops.append(["add", line, gen.chance(r, o["instance"])])
     nsteps = r.randint(*o["steps"])
     for _ in range(nsteps):
         x = r.random()
@@ -449,6 +465,11 @@ def gen_history(r, version, opts=None):
             late = [j for j in cands if M.name_of(st.model.recs[j]) in st.was_pending]
             if late and gen.chance(r, 0.4):
                 i = gen.choice(r, late)  # a line that replaced a placeholder
+            circ = set(m_[0] for x_ in st.model.recs if x_.rt in ("L", "C", "E", "G")
+                       for m_ in M.mentions(x_) if len(set(mm[0] for mm in M.mentions(x_))) == 1)
+            both = [j for j in late if M.name_of(st.model.recs[j]) in circ]
+            if both and gen.chance(r, 0.5):
+                i = gen.choice(r, both)  # ... and which a circular line mentions twice
             rec = st.model.recs[i]
             kind = rec.rt if rec.rt in POOL else "S"
             new = st.free_name(kind, r, allow_undefined=False)
